@@ -49,6 +49,38 @@ Find(len, cur, hits) ==
     IN IF cand = {} THEN [ok |-> FALSE, cursor |-> cur]
        ELSE [ok |-> TRUE, cursor |-> CHOOSE i \in cand : \A k \in cand : dist(i) <= dist(k)]
 
+\* ---- the mode stack ----------------------------------------------------------
+\* stack: sequence of mode names, bottom first ("app" is the disassembler).  "emulate" enters the
+\* emulator from an instruction line, "memory <key>" opens a memory view from the emulator, "quit"
+\* leaves the current mode; every other line (and every line answered with an error) keeps the stack
+EmuKeys  == {"emulate", "emul", "e"}
+MemKeys  == {"memory", "mem", "m"}
+QuitKeys == {"quit", "q"}
+ModeAfter(stack, toks, onInstr) ==
+    IF Len(toks) = 0 THEN stack
+    ELSE LET top == stack[Len(stack)] c == toks[1] IN
+         IF c \in QuitKeys /\ Len(toks) = 1 THEN SubSeq(stack, 1, Len(stack) - 1)
+         ELSE IF top = "app" /\ c \in EmuKeys /\ Len(toks) = 1 /\ onInstr THEN Append(stack, "emulate")
+         ELSE IF top = "emulate" /\ c \in MemKeys /\ Len(toks) = 2 THEN Append(stack, "memview(" \o toks[2] \o ")")
+         ELSE stack
+
+\* ---- the window a cursor view shows -------------------------------------------
+\* granted n lines, a view over len lines with the cursor on line cur (0-based) shows the lines
+\* from max(0, cur - floor(n / (phi + 1))) on, n of them or up to the last line
+WindowBegin(cur, n) == LET b == cur - ((n * 1000000) \div 2618034) IN IF b < 0 THEN 0 ELSE b
+WindowLines(cur, n, len) ==
+    LET b == WindowBegin(cur, n)
+        e == IF b + n > len THEN len ELSE b + n
+    IN [i \in 1..(e - b) |-> b + i - 1]
+
+\* line (0-based) of the instruction at code offset ip, given the block projection
+\* [beginoff, n instructions of 4 bytes]; -1 if ip is not the start of an instruction
+LineOfOffset(lst, blocks, ip) ==
+    LET hit == {p \in 1..Len(blocks) : blocks[p].beginoff <= ip /\ ip < blocks[p].beginoff + 4 * blocks[p].n
+                                         /\ (ip - blocks[p].beginoff) % 4 = 0}
+    IN IF hit = {} THEN -1
+       ELSE LET p == CHOOSE x \in hit : TRUE IN InstrLine(lst, p - 1, (ip - blocks[p].beginoff) \div 4)
+
 \* ---- rendering -----------------------------------------------------------
 \* a view that declares [min, max] lines (max = -1: unbounded) and is granted
 \* n >= min lines writes at most n lines, exactly min if min = max
